@@ -258,6 +258,22 @@ class ChecksumMonitor(Monitor):
                             w.probe("C09.user_chunk_checked")
                             if size % chunk:
                                 w.probe("C09.prefix_not_multiple_of_chunk")
+                            # the same filestore object is then asked for another checksum type of the same prefix
+                            # (a user cross-checking with a second algorithm): results must not leak between types
+                            oth = [3, 2, 0, 15][w.tape.choose(4, "user second checksum type")]
+                            if oth != int(c.ck):
+                                from spacepackets.cfdp import ChecksumType as _CT
+
+                                try:
+                                    g2 = w.vfs_a.calculate_checksum(_CT(oth), Path(w.src_path), size, chunk)
+                                    g1 = w.vfs_a.calculate_checksum(c.ck, Path(w.src_path), size, chunk)
+                                except Exception as e:  # noqa: BLE001
+                                    w.violate("C09.calculate_raises", f"{type(e).__name__} second type={oth}", f"size={size} chunk={chunk}")
+                                else:
+                                    w.probe("C09.second_type_checked")
+                                    if bytes(g2) != ref_checksum(oth, w.src_bytes[:size]) or bytes(g1).hex() != want:
+                                        w.violate("C09.type_interference", f"first={c.ck.name} second={oth} vfs={c.vfs}",
+                                                  f"size={size} chunk={chunk} second={bytes(g2).hex()} first_again={bytes(g1).hex()}")
                             if bytes(got).hex() != want or ok is not True:
                                 w.violate(
                                     "C09.chunk_dependence",
